@@ -164,7 +164,8 @@ func run3(t *testing.T, c Case3, aux Aux, emit func(Out3)) {
 	}
 	chains := aux.Chains
 	vt.Run(t, watchdog, func(ctx context.Context) {
-		tr.t0 = time.Now()
+		tr.start(ctx)
+		defer tr.finish()
 		all, release := context.WithCancel(ctx)
 		defer release()
 		llr := &scriptedRefresher{tr: tr, c: c}
